@@ -379,7 +379,7 @@ def vname(var_id):
     return var_id.split('@')[0]
 
 
-def term(f, n, depth=0):
+def term(f, n, depth=0, res=False):
     """Structural normal form of an expression as nested tuples (for pattern matching).
 
     ('var', name) | ('this',) | ('const', int) | ('null',) | ('enum', qname) | ('str', s)
@@ -408,6 +408,10 @@ def term(f, n, depth=0):
             return ('enum', n['id'])
         if n.get('dk') == 'func':
             return ('func', n.get('q'))
+        if res:
+            ini = const_local_init(f, n.get('id'))
+            if ini is not None:
+                return term(f, ini, depth + 1, res)
         return ('var', n['name'])
     if k == 'CXXThisExpr':
         return ('this',)
@@ -418,33 +422,53 @@ def term(f, n, depth=0):
     if k == 'StringLiteral':
         return ('str', n.get('val'))
     if k == 'MemberExpr':
-        return ('member', term(f, f.ch(n)[0], depth + 1), n['member'])
+        return ('member', term(f, f.ch(n)[0], depth + 1, res), n['member'])
     if k == 'UnaryOperator':
-        return ('un', n['op'], term(f, f.ch(n)[0], depth + 1))
+        return ('un', n['op'], term(f, f.ch(n)[0], depth + 1, res))
     if k in ('BinaryOperator', 'CompoundAssignOperator'):
         c = f.ch(n)
-        return ('bin', n['op'], term(f, c[0], depth + 1), term(f, c[1], depth + 1))
+        return ('bin', n['op'], term(f, c[0], depth + 1, res), term(f, c[1], depth + 1, res))
     if k in CALL_KINDS:
         recv = call_recv(f, n)
-        return ('call', n.get('cq'), term(f, recv, depth + 1) if recv is not None else None,
-                tuple(term(f, a, depth + 1) for a in call_args(f, n)))
+        return ('call', n.get('cq'), term(f, recv, depth + 1, res) if recv is not None else None,
+                tuple(term(f, a, depth + 1, res) for a in call_args(f, n)))
     if k in EXPLICIT_CASTS:
-        return ('cast', n.get('ty'), term(f, f.ch(n)[0], depth + 1))
+        return ('cast', n.get('ty'), term(f, f.ch(n)[0], depth + 1, res))
     if k == 'CXXNewExpr':
         return ('new', n.get('alloc_ty'))
     if k == 'CXXConstructExpr':
-        return ('ctor', n.get('ctor'), tuple(term(f, a, depth + 1) for a in n.get('args', [])))
+        return ('ctor', n.get('ctor'), tuple(term(f, a, depth + 1, res) for a in n.get('args', [])))
     if k == 'ConditionalOperator':
         c = f.ch(n)
-        return ('?:', term(f, c[0], depth + 1), term(f, c[1], depth + 1), term(f, c[2], depth + 1))
+        return ('?:', term(f, c[0], depth + 1, res), term(f, c[1], depth + 1, res), term(f, c[2], depth + 1, res))
     if k == 'ArraySubscriptExpr':
         c = f.ch(n)
-        return ('idx', term(f, c[0], depth + 1), term(f, c[1], depth + 1))
+        return ('idx', term(f, c[0], depth + 1, res), term(f, c[1], depth + 1, res))
     if k == 'InitListExpr':
-        return ('init', tuple(term(f, c, depth + 1) for c in f.ch(n)))
+        return ('init', tuple(term(f, c, depth + 1, res) for c in f.ch(n)))
     if k == 'UnaryExprOrTypeTraitExpr':
         return ('trait', n.get('trait'), n.get('arg_ty'))
     return ('other', k)
+
+
+def const_local_init(f, var_id):
+    """Initialiser of a const-qualified local (`const T x = init;` / `T* const p = init;`): such a variable is a name for
+    its initialiser, rules that match expressions may look through it."""
+    cache = f.__dict__.setdefault('_const_local_init', None)
+    if cache is None:
+        cache = {}
+        for nd in f.all_nodes():
+            if nd['k'] == 'DeclStmt':
+                for v in nd.get('vars', []):
+                    ty = v.get('type') or ''
+                    if 'init' in v and (ty.startswith('const ') or ty.rstrip().endswith('const')) and '&' not in ty:
+                        ini = f.node(v['init'])
+                        x = f.strip(ini, casts=True)
+                        if x is not None and x['k'] == 'InitListExpr' and len(f.ch(x)) == 1:
+                            ini = f.ch(x)[0]
+                        cache[v['id']] = ini
+        f.__dict__['_const_local_init'] = cache
+    return cache.get(var_id)
 
 
 def term_str(t):
